@@ -196,6 +196,9 @@ class SimWriteFile:
         else:
             flags |= os.O_TRUNC
         if fd is None:
+            if 'x' in mode and os.path.lexists(path):
+                # exclusive creation of something that exists fails before anything is touched: not an effect, not a fault point
+                self._fd = _real_os['open'](path, flags, 0o666)
             ch.effect('open', path=rel, mode=mode)
             self._fd = _real_os['open'](path, flags, 0o666)
         else:
@@ -612,6 +615,9 @@ def _install(ch):
         if not writing or kw.get('dir_fd') is not None:
             return _real_os['open'](path, flags, mode, *a, **kw)
         rel = guard(path, 'os.open')
+        if (flags & os.O_EXCL) and (flags & os.O_CREAT) and os.path.lexists(path):
+            # exclusive creation of something that exists fails before anything is touched: not an effect, not a fault point
+            return _real_os['open'](path, flags, mode, *a, **kw)
         ch.effect('open', path=rel, mode='os.open')
         fd = _real_os['open'](path, flags, mode, *a, **kw)
         ch.fdpaths[fd] = (os.fspath(path), rel)
